@@ -83,6 +83,34 @@ def r2_offsets_fit_guards(cx):
                         other += 1
             okshift = shifts >= 1 and other == 0
             cx.check("version-nibble", okshift, site_of(pp, sb), "the family is selected by the high nibble of the first byte (data[0] >> 4)")
+    if not vers_edges:
+        # if / else-if chain: version == 4, version == 6
+        from ..region import compare_switches
+        for (sb, op, a, b_, te, fe) in compare_switches(pp):
+            if op != "Eq" or len(te) != 1:
+                continue
+            for x, c in ((a, op_const(b_)), (b_, op_const(a))):
+                l = op_local(x) if op_place(x) is not None else None
+                if c not in (4, 6, 5, 7, 3) or l is None:
+                    continue
+                seen_l, work, shifts, other = set(), [l], 0, 0
+                while work:
+                    y = work.pop()
+                    if y in seen_l:
+                        continue
+                    seen_l.add(y)
+                    for d in defuse(pp).defs.get(y, []):
+                        if d[0] == "stmt" and d[3]["rv"]["k"] == "binop" and d[3]["rv"]["op"] == "Shr" and op_const(d[3]["rv"]["b"]) == 4:
+                            shifts += 1
+                        elif d[0] == "call" and callee_is(d[2], "ops::Shr::shr") and len(d[2]["args"]) == 2 and op_const(d[2]["args"][1]) == 4:
+                            shifts += 1
+                        elif d[0] == "stmt" and d[3]["rv"]["k"] == "use" and op_local(d[3]["rv"]["op"]) is not None:
+                            work.append(op_local(d[3]["rv"]["op"]))
+                        else:
+                            other += 1
+                if shifts >= 1 and other == 0:
+                    vers_edges[c] = list(te)[0]
+                    cx.check("version-nibble", True, site_of(pp, sb), "the family is selected by the high nibble of the first byte (data[0] >> 4)")
     cx.check("families", set(vers_edges) == {4, 6}, site_of(pp), "exactly the versions 4 and 6 are dissected (found %s)" % sorted(vers_edges))
     calls = [(ci, ct) for ci, ct in pp.calls() if any(d == rff.did for _k, d in prog.cg.resolve(pp, ct))]
     for ver, (minlen, fields) in sorted(layout.items()):
